@@ -653,3 +653,169 @@ def settings_oracle(case_text, real_lines):
             elif res is None or not res.startswith("opened"):
                 fails.append(("gate_accepts", f"correct `{l}` (n={stored_n}) failed: {res}"))
     return fails
+
+
+# ---------------------------------------------------------------------------------------------
+# concurrent oracle (C04, C05, C07, C08, C15) on the REAL lines of a conc run
+
+def conc_oracle(case_text, real_lines):
+    """tags: dangling (C04/C08), read_atomic (C05), quiescent_exact (C07), stuck (C15), nofail"""
+    fails = []
+    calls = {}                     # tid -> list of call token lists
+    for l in case_text.splitlines():
+        t = l.split()
+        if t and t[0] == "thread":
+            calls.setdefault(int(t[1]), []).append(t[2:])
+    setup_state = {}
+    # per step: visible index
+    steps = []                     # (step no, tid, from, to, idx dict or None, cas set)
+    idx_re = re.compile(r"idx=(\[[^\]]*\]|-)")
+    cas_re = re.compile(r"cas=\[([^\]]*)\]")
+    def parse_idx(s):
+        if s == "-":
+            return None
+        d = {}
+        for e in s[1:-1].split(";"):
+            if e:
+                k, v = e.split("="); h, sz = v.split(":")
+                d[k] = (h, int(sz))
+        return d
+    results = {}
+    started, ended = {}, {}        # (tid, call#) -> step number
+    callno = {}
+    for l in real_lines:
+        if l.startswith("X ") or "-> HANG" in l or "DEADLOCK" in l:
+            fails.append(("stuck", l[:300])); continue
+        if "DESYNC" in l or "-> BLOCKED" in l:
+            continue
+        if l.startswith("S init"):
+            steps.append((-1, None, None, None, parse_idx(idx_re.search(l).group(1)), set(x for x in cas_re.search(l).group(1).split(",") if x)))
+        elif l.startswith("S "):
+            t = l.split()
+            i, tid, frm, to = int(t[1]), int(t[2][1:]), t[3], t[5]
+            steps.append((i, tid, frm, to, parse_idx(idx_re.search(l).group(1)), set(x for x in cas_re.search(l).group(1).split(",") if x)))
+            if frm == "start":
+                c = callno.get(tid, 0); started[(tid, c)] = i
+            if to in ("start", "end"):
+                c = callno.get(tid, 0); ended[(tid, c)] = i; callno[tid] = c + 1
+        elif l.startswith("F "):
+            t = l.split(" -> ")
+            a = t[0].split()
+            results[(int(a[1][1:]), int(a[2]))] = t[1]
+    # C04: every visible index entry has its blob
+    for (i, tid, frm, to, idx, cas) in steps:
+        if idx is not None:
+            for k, (h, sz) in idx.items():
+                if h not in cas:
+                    fails.append(("dangling", f"after step {i} (t{tid} {frm} -> {to}): key {k} -> blob {h[:16]}.. but no such file under cas/"))
+    # C07: at the end everything is quiescent
+    if steps and all(ended.get((tid, c)) is not None for tid in calls for c in range(len(calls[tid]))):
+        last = steps[-1]
+        if last[4] is not None and not any(r.startswith("err:") for r in results.values()):
+            ref = {h for (h, _) in last[4].values()}
+            had_orphans = any(l.split()[0] == "orphan" for l in case_text.splitlines() if l.split())
+            ran_cleanup = any(c[0] == "delorphans" for cs in calls.values() for c in cs)
+            if last[5] != ref and not (had_orphans and not ran_cleanup) and not had_orphans:
+                fails.append(("quiescent_exact", f"at quiescence cas/ holds {sorted(last[5])}, referenced {sorted(ref)}"))
+    # C05: reads
+    def value_sets(k, s0, s1):
+        vals = set()
+        # last visible index at or before the start of the call
+        base = None
+        for (i, tid, frm, to, idx, cas) in steps:
+            if i < s0 and idx is not None:
+                base = idx
+            if s0 <= i <= s1 and idx is not None:
+                vals.add(idx.get(k))
+        if base is not None or not vals:
+            vals.add((base or {}).get(k))
+        # writes of k overlapping the call
+        for tid, cs in calls.items():
+            for ci, c in enumerate(cs):
+                st, en = started.get((tid, ci)), ended.get((tid, ci), 10**9)
+                if st is None or st > s1 or en < s0:
+                    continue
+                if c[0] == "put" and c[1] == k:
+                    cont = parse_chunks(c[2] if len(c) > 2 else "")
+                    vals.add((HASH(cont), len(cont)))
+                if c[0] in ("remove", "remove_range") and (c[0] == "remove_range" or c[1] == k):
+                    vals.add(None)
+        return vals
+    for (tid, ci), res in results.items():
+        c = calls[tid][ci]
+        if res == "err:panic":
+            fails.append(("nofail", f"t{tid} call {ci} `{' '.join(c)}` panicked"))
+        if c[0] in ("get", "size"):
+            s0, s1 = started.get((tid, ci), 0), ended.get((tid, ci), 10**9)
+            vals = value_sets(c[1], s0, s1)
+            if res.startswith("err:"):
+                fails.append(("read_atomic", f"t{tid} `{' '.join(c)}` (steps {s0}..{s1}) failed: {res}"))
+            elif res == "none":
+                if None not in vals:
+                    fails.append(("read_atomic", f"t{tid} `{' '.join(c)}` (steps {s0}..{s1}) = none but the key was present throughout"))
+            elif res.startswith("size:"):
+                if int(res[5:]) not in {v[1] for v in vals if v}:
+                    fails.append(("read_atomic", f"t{tid} `{' '.join(c)}` = {res}, sizes held {vals}"))
+            elif res.startswith("bytes:"):
+                ln = int(res[6:].split(":")[0])
+                if ln not in {v[1] for v in vals if v}:
+                    fails.append(("read_atomic", f"t{tid} `{' '.join(c)}` = {res}, values held {vals}"))
+    return fails
+
+
+
+# ---------------------------------------------------------------------------------------------
+# K9 oracle (C11): exclusive ownership, computed from the events alone
+
+def race_oracle(case_text, real_lines):
+    fails = []
+    evs = [l[3:].split() for l in case_text.splitlines() if l.startswith("ev ")]
+    res = {}
+    for l in real_lines:
+        if l.startswith("E "):
+            a, b = l.split(" -> ", 1)
+            res[int(a.split()[1])] = b
+    owner_refs = {}            # slot -> True while it holds a reference to the live handle
+    owner_proc = None
+    def live():
+        return bool(owner_refs) or owner_proc is not None
+    for i, e in enumerate(evs):
+        r = res.get(i)
+        if r is None:
+            fails.append(("exclusive", f"event {i} `{' '.join(e)}` produced no result")); continue
+        if e[0] in ("open", "openstats", "openn"):
+            if live():
+                if not r.startswith("already"):
+                    fails.append(("exclusive", f"event {i} `{' '.join(e)}`: a live handle exists but the open returned `{r}`"))
+                elif "same=true" not in r or "calls=[create LOCK]" not in r:
+                    fails.append(("loser_modifies", f"event {i} `{' '.join(e)}`: the losing open touched the directory: {r}"))
+            else:
+                exp_ok = (e[0] != "openn") or True
+                if r == "opened":
+                    owner_refs[e[1]] = True
+                    if e[0] == "openstats": owner_refs[e[1] + "!stats"] = True
+                elif e[0] == "openn" and r.startswith("err:settings"):
+                    pass        # a mismatching configuration on a free directory is C19's business
+                else:
+                    fails.append(("release", f"event {i} `{' '.join(e)}`: no live handle but the open returned `{r}`"))
+        elif e[0] == "clone":
+            if e[1] in owner_refs: owner_refs[e[2]] = True
+        elif e[0] in ("drop", "dropcas"):
+            owner_refs.pop(e[1], None)
+        elif e[0] == "dropstats":
+            owner_refs.pop(e[1] + "!stats", None)
+        elif e[0] == "spawn":
+            if live():
+                if r != "already": fails.append(("exclusive", f"event {i} spawn: live handle exists but child got `{r}`"))
+            elif r == "opened":
+                owner_proc = e[1]
+            else:
+                fails.append(("release", f"event {i} spawn on a free directory returned `{r}`"))
+        elif e[0] == "kill":
+            if owner_proc == e[1]: owner_proc = None
+        elif e[0] in ("racethreads", "raceprocs"):
+            n = int(e[1])
+            exp = f"winners={0 if live() else 1} already={n if live() else n - 1} other=0"
+            if r != exp:
+                fails.append(("exclusive", f"event {i} `{' '.join(e)}` gave `{r}`, expected `{exp}`"))
+    return fails
